@@ -106,4 +106,178 @@ example :
     let W : List Call := [⟨0, [.exec 0 .orIgnore, .ret], 7, 70⟩]
     (crashAt Gen.commitMethod W 1 0).acks = [0] ∧ visible (crashAt Gen.commitMethod W 1 0) = [] := by decide
 
+/-! ## the property text, clause by clause (corollaries of `acked_survive`) -/
+
+/-- **every record whose insert call had returned is present and unchanged.**  Call number `i` had returned (or
+    raised) before the kill (`i <` number of completed calls).  Then (a) if it is an INSERT OR IGNORE, a record
+    with its primary key is visible; (b) if no earlier call used the same table and key, exactly its own record
+    is visible — for any conflict clause.  (With (c) `visible_keys_unique` below: under a key shared by several
+    calls the first call's record is the one that stays.) -/
+theorem acked_present_unchanged (C : CommitMethod) (hC : wfCommit C = true) (W : List Call) (hW : TopLevel W)
+    (k j i : Nat) (c : Call) (hi : W[i]? = some c) (hdone : i < (if j ≤ 2 then k else k + 1))
+    (row : Row) (hrow : rowOf c = some row) :
+    ((∃ rest, c.ops = .exec row.table .orIgnore :: rest) →
+        hasKey (visible (crashAt C W k j)) row.table row.key = true) ∧
+    ((∀ i' c', i' < i → W[i']? = some c' → ∀ r', rowOf c' = some r' → ¬ (r'.table = row.table ∧ r'.key = row.key)) →
+        row ∈ visible (crashAt C W k j)) := by
+  rw [(acked_survive C hC W hW k j).1]
+  have hm : i < (if j ≤ 1 then k else k + 1) := by
+    by_cases h1 : j ≤ 1
+    · have : j ≤ 2 := by omega
+      simp [h1, this] at hdone ⊢; exact hdone
+    · by_cases h2 : j ≤ 2 <;> simp [h1, h2] at hdone ⊢ <;> omega
+  obtain ⟨rest, hsplit⟩ := take_split W i _ c hi hm
+  have hT : TopLevel (W.take i ++ [c] ++ rest) := by rw [← hsplit]; exact topLevel_take hW _
+  obtain ⟨extra, hext⟩ := spec_prefix (W.take i ++ [c]) rest (topLevel_append_right hT)
+  have hc : wfInsertPath c.ops = true := hW c (List.mem_of_getElem? hi)
+  rw [hsplit, hext, spec_snoc]
+  constructor
+  · rintro ⟨r, hops⟩
+    have hk := specStep_key (spec (W.take i)) c row.table r hops
+    have hkey : row.key = c.key := by
+      have := rowOf_shape hops; rw [hrow] at this
+      have h2 := congrArg Row.key (Option.some.inj this)
+      exact h2
+    rw [hasKey_append, hkey, hk]; rfl
+  · intro hfirst
+    have hfresh : hasKey (spec (W.take i)).1 row.table row.key = false := by
+      cases hh : hasKey (spec (W.take i)).1 row.table row.key with
+      | false => rfl
+      | true =>
+        exfalso
+        obtain ⟨r', hr', ht, hkk⟩ := hasKey_exists hh
+        obtain ⟨c', hc', hrc'⟩ := spec_origin (W.take i) (topLevel_take hW i) r' hr'
+        obtain ⟨i', hi', hget⟩ := List.mem_iff_getElem.mp hc'
+        have hlt : i' < i := by
+          have := hi'; simp [List.length_take] at this; omega
+        have hW' : W[i']? = some c' := by
+          rw [List.getElem_take] at hget
+          have hl : i' < W.length := by simp [List.length_take] at hi'; omega
+          rw [List.getElem?_eq_getElem hl, hget]
+        exact hfirst i' c' hlt hW' r' hrc' ⟨ht, hkk⟩
+    rw [(specStep_fresh (spec (W.take i)) c hc row hrow hfresh).1]
+    simp
+
+/-- (c) at most one visible record per table and primary key, at every crash point -/
+theorem visible_keys_unique (C : CommitMethod) (hC : wfCommit C = true) (W : List Call) (hW : TopLevel W)
+    (k j : Nat) : KeysUnique (visible (crashAt C W k j)) := by
+  rw [(acked_survive C hC W hW k j).1]
+  exact spec_unique _ (topLevel_take hW _)
+
+/-- **no partially written / foreign record is visible; records of inserts that never started are absent**:
+    every visible row is, completely, the record bound by one of the first `k+1` calls -/
+theorem unstarted_absent (C : CommitMethod) (hC : wfCommit C = true) (W : List Call) (hW : TopLevel W)
+    (k j : Nat) (r : Row) (hr : r ∈ visible (crashAt C W k j)) :
+    ∃ c ∈ W.take (k + 1), rowOf c = some r := by
+  rw [(acked_survive C hC W hW k j).1] at hr
+  obtain ⟨c, hc, hrc⟩ := spec_origin _ (topLevel_take hW _) r hr
+  refine ⟨c, ?_, hrc⟩
+  by_cases h1 : j ≤ 1
+  · simp [h1] at hc
+    obtain ⟨i, hi, hget⟩ := List.mem_iff_getElem.mp hc
+    rw [List.getElem_take] at hget
+    simp [List.length_take] at hi
+    exact List.mem_iff_getElem.mpr ⟨i, by simp [List.length_take]; omega, by rw [List.getElem_take]; exact hget⟩
+  · simpa [h1] using hc
+
+/-- **the pseudonym rebuilt from the store verifies.**  `dep` names the record a record points to (token → previous
+    token or none for genesis, metadata → token, attestation → metadata).  If the workload writes a record only
+    after the one it points to (what `PseudonymManager.create_credential/add_credential/add_attestation` do;
+    checked on every generated manager workload), then after a kill at any point the visible store is closed under
+    `dep` and from every visible record the pointer chain reaches a genesis record inside the store — the walk of
+    `TokenTree.verify` succeeds (its depth limit of 1000 and the signature checks are not modelled). -/
+theorem rebuild_verifies (C : CommitMethod) (hC : wfCommit C = true) (W : List Call) (hW : TopLevel W)
+    (dep : Nat → Nat → Option (Nat × Nat)) (hdep : Causal dep W) (k j : Nat) :
+    Closed dep (visible (crashAt C W k j)) ∧
+    ∀ r ∈ visible (crashAt C W k j), Reaches dep (visible (crashAt C W k j)) r.table r.key := by
+  rw [(acked_survive C hC W hW k j).1]
+  exact spec_closed_reaches dep W hW hdep _
+
+/-- non-vacuity of `Causal`: token 1 (genesis), token 2 → token 1, metadata 5 → token 2 -/
+example : Causal (fun t k => if t = 0 ∧ k = 2 then some (0, 1) else if t = 1 ∧ k = 5 then some (0, 2) else none)
+    [⟨0, [.exec 0 .orIgnore, .callCommit, .ret], 1, 10⟩, ⟨1, [.exec 0 .orIgnore, .callCommit, .ret], 2, 20⟩,
+     ⟨2, [.exec 1 .orIgnore, .callCommit, .ret], 5, 50⟩] := by
+  intro i c hi row hrow d hd
+  match i, hi with
+  | 0, hi => simp at hi; subst hi; simp [rowOf, callExec] at hrow; subst hrow; simp at hd
+  | 1, hi => simp at hi; subst hi; simp [rowOf, callExec] at hrow; subst hrow; simp at hd; subst hd; decide
+  | 2, hi => simp at hi; subst hi; simp [rowOf, callExec] at hrow; subst hrow; simp at hd; subst hd; decide
+  | n + 3, hi => simp at hi
+
+/-! ## `with db:` blocks (not used by the identity code today; mirrored because `Database` offers them) -/
+
+/-- **a block is invisible until its exit**: after any complete inserts `pre`, `__enter__`, any complete inserts
+    `blk` inside the block and `j` primitives of one more insert `c`, a kill shows exactly the content before the
+    block — although every insert of `blk` has *returned*.  (So the property's "returned ⇒ present" holds for the
+    call sites of the identity code only because none of them runs inside a block; `acked_survive` is stated for
+    block-free workloads.)  `crashAt W k j` unfolds to this form for `W = pre ++ [e] ++ blk ++ [c] ++ …`. -/
+theorem deferred_block_invisible (C : CommitMethod) (hC : wfCommit C = true) (pre blk : List Call)
+    (hpre : TopLevel pre) (hblk : TopLevel blk) (e c : Call) (he : e.ops = [.enter])
+    (hc : wfInsertPath c.ops = true) (j : Nat) :
+    visible (runPrims C c j c.ops (runCalls C (pre ++ [e] ++ blk) Db.init)) = (spec pre).1 := by
+  obtain ⟨t, pol, _, hops⟩ := wf_shape hc
+  rw [List.append_assoc, runCalls_append, runCalls_append, runCalls_init C hC pre hpre]
+  have h2 : runCalls C [e] { durable := (spec pre).1, work := (spec pre).1, defer := 0, acks := (spec pre).2 }
+      = { durable := (spec pre).1, work := (spec pre).1, defer := 1, acks := (spec pre).2 } := by
+    simp [runCalls, runCall, he, runPrims, stepPrim]
+  rw [h2]
+  obtain ⟨d1, _, _, d4, _⟩ := runCalls_deferred C hC blk hblk
+    { durable := (spec pre).1, work := (spec pre).1, defer := 1, acks := (spec pre).2 } (by simp)
+  rw [visible_eq, hops, runPrims_deferred C hC c t pol _ (by simpa using d4) j, d1]
+
+/-- **a block commits as a whole at its normal exit**: afterwards the store is the reference content of
+    `pre ++ blk`; together with the previous theorem: all of the block or nothing of it -/
+theorem deferred_block_atomic (C : CommitMethod) (hC : wfCommit C = true) (pre blk : List Call)
+    (hpre : TopLevel pre) (hblk : TopLevel blk) (e x : Call) (he : e.ops = [.enter]) (hx : x.ops = [.exit]) :
+    visible (runCalls C (pre ++ [e] ++ blk ++ [x]) Db.init) = (spec (pre ++ blk)).1 := by
+  rw [List.append_assoc, List.append_assoc, runCalls_append, runCalls_append, runCalls_append,
+    runCalls_init C hC pre hpre]
+  have h2 : runCalls C [e] { durable := (spec pre).1, work := (spec pre).1, defer := 0, acks := (spec pre).2 }
+      = { durable := (spec pre).1, work := (spec pre).1, defer := 1, acks := (spec pre).2 } := by
+    simp [runCalls, runCall, he, runPrims, stepPrim]
+  rw [h2]
+  obtain ⟨d1, d2, _, d4, d5⟩ := runCalls_deferred C hC blk hblk
+    { durable := (spec pre).1, work := (spec pre).1, defer := 1, acks := (spec pre).2 } (by simp)
+  have hspec : (spec (pre ++ blk)).1 = (blk.foldl specStep ((spec pre).1, (spec pre).2)).1 := by
+    simp [spec, List.foldl_append]
+  generalize runCalls C blk
+    { durable := (spec pre).1, work := (spec pre).1, defer := 1, acks := (spec pre).2 } = s3 at d1 d2 d4 d5
+  simp only [] at d1 d2 d4 d5
+  rw [hspec, ← d2, visible_eq]
+  by_cases hgt : s3.defer > 1
+  · simp [runCalls, runCall, hx, runPrims, stepPrim, hgt, doCommit_idle C hC]
+  · have h1 : s3.defer = 1 := by omega
+    simp [runCalls, runCall, hx, runPrims, stepPrim, hgt, d1, d5 h1]
+
+/-- non-vacuity: two inserts inside a block, killed after the second has returned: nothing is visible; after the
+    exit both are -/
+example :
+    let ins (i k : Nat) : Call := ⟨i, [.exec 0 .orIgnore, .callCommit, .ret], k, k⟩
+    visible (runCalls Gen.commitMethod [⟨0, [.enter], 0, 0⟩, ins 1 1, ins 2 2] Db.init) = [] ∧
+    (runCalls Gen.commitMethod [⟨0, [.enter], 0, 0⟩, ins 1 1, ins 2 2] Db.init).acks = [1, 2] ∧
+    visible (runCalls Gen.commitMethod [⟨0, [.enter], 0, 0⟩, ins 1 1, ins 2 2, ⟨3, [.exit], 0, 0⟩] Db.init)
+      = [⟨0, 1, 1⟩, ⟨0, 2, 2⟩] := by decide
+
+/-! ## the database opens again -/
+
+/-- **the database opens again without error** (IdentityDatabase): whatever state a kill left the file in — also a
+    kill between the statements of the schema script of an earlier `open()`, each of which commits on its own —
+    `open()` succeeds, and once it completes the schema and the version row are there.  Needs: the handler around
+    the version-row read covers the empty result (StopIteration), the script creates all tables and ends by
+    inserting the version row — all read off the current source. -/
+theorem reopen_never_fails_identity :
+    OpenSafe Gen.versionHandlers Gen.schemaIdentityDatabase Gen.tablesIdentityDatabase :=
+  openSafe_of _ _ _ (by decide) (by decide) (by decide) ⟨Gen.schemaIdentityDatabase.dropLast, by decide⟩
+
+/-- the same for AttestationsDB -/
+theorem reopen_never_fails_wallet :
+    OpenSafe Gen.versionHandlers Gen.schemaAttestationsDB Gen.tablesAttestationsDB :=
+  openSafe_of _ _ _ (by decide) (by decide) (by decide) ⟨Gen.schemaAttestationsDB.dropLast, by decide⟩
+
+/-- what the handler list is for (the behaviour before commit fdb0f78): killed after `CREATE TABLE option`,
+    before the version row is inserted, the next open fails -/
+example :
+    (openDb [.operationalError] Gen.schemaIdentityDatabase 4 {}).bind
+      (fun s => openDb [.operationalError] Gen.schemaIdentityDatabase 6 s) = none := by decide
+
 end Ipv8.C19
